@@ -98,6 +98,11 @@ func isParked(g G) bool {
 	if parked[g.State] {
 		return true
 	}
+	if g.State == "select" && strings.Contains(g.Stack, "database/sql.(*DB).conn(") {
+		// waiting for a free connection of a database/sql pool without a deadline (the library
+		// passes context.Background()): only another goroutine returning its connection ends it
+		return true
+	}
 	if g.State == "semacquire" {
 		return strings.Contains(g.Stack, "sync.(*WaitGroup).Wait") || strings.Contains(g.Stack, "sync.(*Mutex).Lock") || strings.Contains(g.Stack, "sync.(*RWMutex).")
 	}
